@@ -2,8 +2,9 @@
 //
 // Each case draws a configuration (ndim, nvar, heterotopy, drift, external drift, measurement error, nested
 // anisotropic model, neighbourhood, target kind), runs
-//   (a) kriging()                                  -> output columns *.estim / *.stdev / *.varz
+//   (a) kriging() / krigcell()                     -> output columns *.estim / *.stdev / *.varz
 //   (b) a KrigingSystem driven target by target    -> getSampleIndices / getWeights / getZam / getRHSC / getVariance
+//   (a') kriging() asked for the estimate only, (d) kriging() of linear combinations of the variables (matLC)
 //   (c) krigtest(iech0)                            -> Krigtest_Res
 // and compares them with harness/common/ref_krige.hpp (pointwise assembly of [Sigma X; Xt 0], long double solve)
 // on exactly the samples the library reports for the target (KrigingSystem::getSampleIndices()).
@@ -103,8 +104,7 @@ static void accum(Cmp& c, double got, double want, double tol, int row)
 {
   double e = std::fabs(got - want);
   double q = (std::isnan(e) || std::isinf(e)) ? INFINITY : e / tol;
-  if (!(q <= c.ratio) || c.row < 0)
-    if (q >= c.ratio || c.row < 0) { c.ratio = q; c.err = std::isnan(e) ? INFINITY : e; c.tol = tol; c.row = row; }
+  if (c.row < 0 || q > c.ratio) { c.ratio = q; c.err = std::isnan(e) ? INFINITY : e; c.tol = tol; c.row = row; }
 }
 // column jv of a weight matrix against the reference, row by row: |dW(r)| <= CTOL eps kappa Tw(r)
 static Cmp cmpWeights(const AMatrix& W, const refk::Sol& s, int jv, int nbfl, const std::vector<int>& dmap, int nrows)
@@ -118,37 +118,6 @@ static Cmp cmpWeights(const AMatrix& W, const refk::Sol& s, int jv, int nbfl, co
   return c;
 }
 
-static refk::Target makeTarget(const kg::Case& k, int it, const DbGrid* grid)
-{
-  refk::Target t;
-  t.x = k.tx[it];
-  if (k.nfex > 0) t.f = k.tf[it];
-  if (k.targetKind == kg::T_BLOCK)
-  {
-    // first discretisation: regular, centred sub-cells of the grid mesh, built here from the mesh sizes
-    int ndim = k.ndim, tot = 1;
-    for (int v : k.ndiscs) tot *= v;
-    for (int i = 0; i < tot; i++)
-    {
-      std::vector<double> off(ndim);
-      int rest = i;
-      for (int d = 0; d < ndim; d++)
-      {
-        int j  = rest % k.ndiscs[d];
-        rest  /= k.ndiscs[d];
-        off[d] = k.gdx[d] * ((j + 0.5) / k.ndiscs[d] - 0.5);
-      }
-      t.disc1.push_back(off);
-    }
-    // second discretisation (block variance only): the library randomises it inside each sub-cell with its own
-    // generator (DbGrid::getDiscretizedBlock(..., flagRandom = true, seed = 1234546), see KrigingSystem::_blockDiscretize);
-    // the points are taken from that public geometric helper, the covariances are still evaluated here.
-    VectorVectorDouble d2 = grid->getDiscretizedBlock(VectorInt(k.ndiscs.begin(), k.ndiscs.end()), it, false, true, 1234546);
-    for (int i = 0; i < (int)d2.size(); i++) t.disc2.push_back(d2[i].getVector());
-  }
-  return t;
-}
-
 static void run_case(Rng& r, Ctx& c)
 {
   kg::Options opt;
@@ -157,8 +126,9 @@ static void run_case(Rng& r, Ctx& c)
   kg::setSpace(k.ndim);
   c.setSig(k.sig());
   c.puts("cfg", k.sig());
+  c.put("case", kg::describe(k));
   c.putn("n", k.n);
-  if (c.verbose) fprintf(stderr, "CASE %ld %s n=%d nt=%d ncoeffs=%d nmaxi=%d radius=%g\n", c.icase, k.sig().c_str(), k.n, (int)k.tx.size(), (int)k.ncoeffs.size(), k.nmaxi, k.radius);
+  if (c.verbose) fprintf(stderr, "CASE %ld %s n=%d ncoeffs=%d nmaxi=%d radius=%g\n", c.icase, k.sig().c_str(), k.n, (int)k.ncoeffs.size(), k.nmaxi, k.radius);
 
   auto dbin  = kg::makeDataDb(k);
   auto dbout = kg::makeTargetDb(k);
@@ -169,7 +139,9 @@ static void run_case(Rng& r, Ctx& c)
   const bool block = k.targetKind == kg::T_BLOCK;
   const EKrigOpt calcul = block ? EKrigOpt::BLOCK : EKrigOpt::POINT;
   VectorInt ndiscs(k.ndiscs.begin(), k.ndiscs.end());
-  const bool wantVarz = k.stationary();
+  // krigcell(): "Standard Block Kriging with variable cell dimension" (block extension read from ELoc::BLEX); it has no
+  // varz output
+  const bool wantVarz = k.stationary() && !k.perCell;
   const bool estimOnly = r.coin(0.3);
   // linear combinations of the variables (option matLC): "Define the output as Linear Combinations of the Input
   // Variables; the first dimension of 'matLC' is the number of Output variables, the second the number of input Variables"
@@ -181,12 +153,13 @@ static void run_case(Rng& r, Ctx& c)
     for (auto& v : row) v = r.coin(0.25) ? 0. : r.uni(-2, 2);
     row[r.irange(0, nvar - 1)] += 1.5;
   }
-  const std::string cls = fmt("%s:%s", k.neighKind == kg::N_UNIQUE ? "unique" : "moving", block ? "block" : "point");
+  const std::string cls = fmt("%s:%s", k.neighKind == kg::N_UNIQUE ? "unique" : "moving", block ? (k.perCell ? "cellblock" : "block") : "point");
 
   if (!c.truth("model-valid", "C01:generator:model-invalid", model->isValid(), k.sig())) return;
 
   // ---------------- (a) kriging() ----------------
-  int err = kriging(dbin.get(), dbout.get(), model.get(), neigh.get(), calcul, true, true, wantVarz, ndiscs);
+  int err = k.perCell ? krigcell(dbin.get(), dbout.get(), model.get(), neigh.get(), true, true, ndiscs)
+                      : kriging(dbin.get(), dbout.get(), model.get(), neigh.get(), calcul, true, true, wantVarz, ndiscs);
   if (!c.truth("kriging-rc", "C01:kriging:error-return:" + cls, err == 0, k.sig())) return;
   std::vector<std::string> nE = namesWithSuffix(dbout.get(), ".estim"), nS = namesWithSuffix(dbout.get(), ".stdev"),
                            nV = namesWithSuffix(dbout.get(), ".varz");
@@ -228,7 +201,7 @@ static void run_case(Rng& r, Ctx& c)
   std::vector<char> evaluated(nt, 0);
   {
     KrigingSystem ks(dbin.get(), dbout.get(), model.get(), neigh.get());
-    bool ready = ks.updKrigOptEstim(uE, uS, uV) == 0 && ks.setKrigOptCalcul(calcul, ndiscs, false) == 0 && ks.isReady();
+    bool ready = ks.updKrigOptEstim(uE, uS, uV) == 0 && ks.setKrigOptCalcul(calcul, ndiscs, k.perCell) == 0 && ks.isReady();
     if (!c.truth("ksys-ready", "C01:ksys:not-ready:" + cls, ready, k.sig())) return;
     for (int it = 0; it < nt; it++)
     {
@@ -269,7 +242,7 @@ static void run_case(Rng& r, Ctx& c)
       }
       if (!sys.base.ok) { c.skip("singular"); continue; }
       if (sys.base.cond > KMAX) { c.skip("illcond"); continue; }
-      refk::Sol s = sys.solve(makeTarget(k, it, grid));
+      refk::Sol s = sys.solve(kg::refTarget(k, it, grid));
       solOf[it]    = s;
       evaluated[it] = 1;
       const double kap = (double)s.cond;
@@ -326,12 +299,12 @@ static void run_case(Rng& r, Ctx& c)
       {
         VectorDouble rhs = ks.getRHSC(jv);
         if ((int)rhs.size() != s.nred) { c.truth("rhs", "C01:rhs-shape", false); continue; }
-        // one covariance evaluation: |dB| <= 16 eps (|B| + covErr); drift rows: a few ulps of the monomial
+        // one covariance evaluation: |dB| <= 64 eps (|B| + covErr); drift rows: a few ulps of the monomial
         Cmp cr;
         for (int a = 0; a < s.nred; a++)
         {
           int ra = refRow(s, a, nbfl, dmap);
-          double tolr = 16 * EPS * (std::fabs((double)s.B(ra, jv)) + (a < s.ndata ? setup.covErr : 0.)) + 1e-300;
+          double tolr = 64 * EPS * (std::fabs((double)s.B(ra, jv)) + (a < s.ndata ? setup.covErr : 0.)) + 1e-300;
           accum(cr, rhs[a], (double)s.B(ra, jv), tolr, a);
         }
         c.check("rhs", "C01:rhs:" + cl2, cr.ok(), cr.err, cr.tol, fmt("target %d var %d row %d %s", it, jv, cr.row, k.sig().c_str()));
@@ -340,7 +313,7 @@ static void run_case(Rng& r, Ctx& c)
       {
         MatrixSquareGeneral v0 = ks.getVariance();
         for (int jv = 0; jv < nvar; jv++)
-          c.close("c00", "C01:c00:" + cl2, v0.getValue(jv, jv), (double)s.c00[jv], 16 * EPS * (std::fabs((double)s.c00[jv]) + setup.covErr) + 1e-300,
+          c.close("c00", "C01:c00:" + cl2, v0.getValue(jv, jv), (double)s.c00[jv], 64 * EPS * (std::fabs((double)s.c00[jv]) + setup.covErr) + 1e-300,
                   fmt("target %d var %d", it, jv));
       }
       // outputs of the KrigingSystem run and of kriging()
@@ -368,7 +341,7 @@ static void run_case(Rng& r, Ctx& c)
   }
 
   // ---------------- (a') kriging() asked for the estimate only (no weights are formed: dual path alone) ----------------
-  if (estimOnly)
+  if (estimOnly && !k.perCell)
   {
     int e2 = kriging(dbin.get(), dbout.get(), model.get(), neigh.get(), calcul, true, false, false, ndiscs, VectorInt(), nullptr,
                      NamingConvention("EstOnly"));
@@ -391,7 +364,7 @@ static void run_case(Rng& r, Ctx& c)
   }
 
   // ---------------- (d) kriging() of linear combinations Y_i = sum_j matLC(i,j) Z_j ----------------
-  if (withLC)
+  if (withLC && !k.perCell)
   {
     MatrixRectangular M(nlc, nvar);
     for (int i = 0; i < nlc; i++)
@@ -445,7 +418,7 @@ static void run_case(Rng& r, Ctx& c)
   {
     if (!evaluated[i0]) continue;
     if (k.tfUndef >= 0) { c.skip("krigtest:undefined-target-drift-case"); continue; } // keeps the two defects apart
-    Krigtest_Res kt = krigtest(dbin.get(), dbout.get(), model.get(), neigh.get(), i0, calcul, ndiscs, false, false);
+    Krigtest_Res kt = krigtest(dbin.get(), dbout.get(), model.get(), neigh.get(), i0, calcul, ndiscs, k.perCell, false);
     OptDbg::reset();
     const refk::Sol& s = solOf[i0];
     const double kap = (double)s.cond;
